@@ -371,6 +371,64 @@ pub fn long_case(two_point: bool, f: Flavour, l: usize, max_dev: usize) -> (u64,
     }
     (st.leaves, st.choice_points, viols)
 }
+/// Genomes of thousands of genes: the per-leaf oracle (length, every gene from a parent's same position, one
+/// segment) on every stream with at most two non-default words among the first few over the extended grid;
+/// over those streams both ends of the child come from either parent.
+pub fn huge_case(two_point: bool, f: Flavour, l: usize) -> (u64, u64, Vec<(String, String)>) {
+    let name = if two_point { "two_point_xo" } else { "uniform_xo" };
+    let label = format!("{name} {f:?} length {l}");
+    let mut viols: Vec<(String, String)> = vec![];
+    // [first, last] position seen from parent 1 / parent 2
+    let mut seen = [[false; 2]; 2];
+    let st = mcx::explore_bounded_h(
+        |env| recombine(two_point, f, l, l, env, if two_point { Alphabet::Ext(4) } else { Alphabet::Bits }),
+        |_, o| {
+            let what = match &o {
+                XoObs::Panic(p) => Some(("panic", format!("panicked: {p}"))),
+                XoObs::ErrLength => Some(("spurious-length-error", "equal-length parents rejected".to_string())),
+                XoObs::ErrOther(e) => Some(("other-error", format!("unexpected error {e}"))),
+                XoObs::Child(c) => {
+                    if c.len() != l {
+                        Some(("child-length", format!("child has length {}", c.len())))
+                    } else if let Some(i) = c.iter().position(|p| *p == 0) {
+                        Some(("foreign-gene", format!("the child's gene {i} is not the gene either parent has at that position")))
+                    } else if two_point && single_run(c).is_none() {
+                        Some(("not-contiguous", "genes from the second parent do not form one segment".to_string()))
+                    } else {
+                        seen[(c[0] - 1) as usize][0] = true;
+                        seen[(c[l - 1] - 1) as usize][1] = true;
+                        None
+                    }
+                }
+            };
+            if let Some((k, w)) = what {
+                if viols.len() < 3 {
+                    viols.push((format!("{name}/huge/{k}"), format!("{label}: {w}")));
+                }
+            }
+        },
+        if two_point { 2 } else { 1 },
+        if two_point { 8 } else { 6 },
+        100_000,
+    );
+    // (uniform: the last gene is decided by a word far beyond the explored prefix)
+    if !two_point {
+        seen[0][1] = true;
+        seen[1][1] = true;
+    }
+    if viols.is_empty() && !st.capped && !(seen[0][0] && seen[0][1] && seen[1][0] && seen[1][1]) {
+        viols.push((format!("{name}/huge/ends"), format!("{label}: over the explored streams (incl. the extreme words) the first / last gene comes from the first parent: {:?}, from the second: {:?}; both must be possible at both ends", seen[0], seen[1])));
+    }
+    (st.leaves, st.choice_points, viols)
+}
+pub fn huge_lengths(quick: bool) -> Vec<usize> {
+    if quick {
+        vec![999, 1000, 1001, 4097, 65_537]
+    } else {
+        vec![999, 1000, 1001, 2048, 4097, 65_535, 65_536, 65_537, 100_003, 1_000_003]
+    }
+}
+
 pub fn long_lengths(quick: bool) -> Vec<usize> {
     // dense, so that a threshold at any length in the range is crossed (not only powers of two)
     if quick {
@@ -629,6 +687,24 @@ pub fn run(run: &mut Run) {
             }
         }
     }
+    let mut huge_cases = vec![];
+    for tp in [true, false] {
+        for f in FLAVOURS {
+            for l in huge_lengths(quick) {
+                huge_cases.push((tp, f, l));
+            }
+        }
+    }
+    let huge_results = mcx::par_map(huge_cases.len(), |i| huge_case(huge_cases[i].0, huge_cases[i].1, huge_cases[i].2));
+    for (i, (leaves, cps, viols)) in huge_results.into_iter().enumerate() {
+        run.evaluations += leaves;
+        run.transitions += cps;
+        let (tp, f, l) = huge_cases[i];
+        for (k, w) in viols {
+            run.violation(k, w, json!({"check":"C10","scenario":"huge","two_point":tp,"flavour":format!("{f:?}"),"l":l}));
+        }
+    }
+    run.bound("huge_lengths", json!(huge_lengths(quick)));
     run.bound("long_lengths", json!(long_lengths(quick)));
     run.bound("long_uniform_deviation_bound", json!(if quick { "1" } else { "2 up to 130 genes, 1 beyond" }));
     let p = primitives(run) + primitives_long(run) + unit_genomes(run);
@@ -637,7 +713,7 @@ pub fn run(run: &mut Run) {
     run.states = cases.len() as u64 + p;
     run.traces_validated = run.evaluations;
     run.distinct_nontrivial = nontrivial;
-    run.rule = "TwoPointXo and UniformXo in 6 flavours ([Vec;2], (Vec,Vec), [Bitstring;2], (Bitstring,Bitstring), through Recombine, behind &) x all length pairs 0..L x all grid word sequences on tagged parents (and, lengths <= 4, all sequences over the grid plus the extreme words 0 and all-ones, per-leaf oracle only); per leaf: error iff lengths differ, child gene i from a parent's position i, one contiguous segment (two-point); over all leaves: every segment [a,b) reachable, uniform mask law exactly 2^-l; plus long genomes (around 64 and 128 genes): two-point with both cut points enumerated, uniform under every stream with at most 1 (thorough 2) non-default words, per-leaf oracle + every position seen from either parent + every pair of positions seen from different parents (independence) + every segment; plus crossover_gene / crossover_segment for all indices / ranges up to length+2 on all length pairs 0..4, and on long bitstrings of equal and different sizes (primitives.long_size_pairs) for every segment length 0..=1100 from six start positions. non-trivial = scenarios with more than one distinct child".into();
+    run.rule = "TwoPointXo and UniformXo in 6 flavours ([Vec;2], (Vec,Vec), [Bitstring;2], (Bitstring,Bitstring), through Recombine, behind &) x all length pairs 0..L x all grid word sequences on tagged parents (and, lengths <= 4, all sequences over the grid plus the extreme words 0 and all-ones, per-leaf oracle only); per leaf: error iff lengths differ, child gene i from a parent's position i, one contiguous segment (two-point); over all leaves: every segment [a,b) reachable, uniform mask law exactly 2^-l; plus long genomes (around 64 and 128 genes): two-point with both cut points enumerated, uniform under every stream with at most 1 (thorough 2) non-default words, per-leaf oracle + every position seen from either parent + every pair of positions seen from different parents (independence) + every segment; genomes of 999..65537 (thorough ..1000003) genes with the per-leaf oracle on every stream with at most two (uniform: one) non-default words among the first 8 (6); both ends (uniform: the first gene) reachable from either parent; plus crossover_gene / crossover_segment for all indices / ranges up to length+2 on all length pairs 0..4, and on long bitstrings of equal and different sizes (primitives.long_size_pairs) for every segment length 0..=1100 from six start positions. non-trivial = scenarios with more than one distinct child".into();
     run.bound("max_length", json!(max_l));
     run.bound("alphabet", json!("Grid(l*(l+1)) for two-point, Grid(2) for uniform"));
     run.assumptions = vec!["Grid(l(l+1)) is exact for cut points drawn from 0..l as well as from 0..=l".into()];
@@ -657,6 +733,16 @@ pub fn replay(v: &Value) -> bool {
                 println!("MISMATCH [{k}]: {}", x.what);
             }
             g.is_empty()
+        }
+        Some("huge") => {
+            let tp = v["two_point"].as_bool().unwrap_or(true);
+            let f = FLAVOURS.iter().copied().find(|f| Some(format!("{f:?}").as_str()) == v["flavour"].as_str()).unwrap_or(Flavour::VecArr);
+            let (leaves, _, viols) = huge_case(tp, f, v["l"].as_u64().unwrap_or(0) as usize);
+            println!("huge genomes, {} {f:?}: {leaves} executions", if tp { "two-point" } else { "uniform" });
+            for (k, w) in &viols {
+                println!("MISMATCH [{k}]: {w}");
+            }
+            viols.is_empty()
         }
         Some("long") => {
             let tp = v["two_point"].as_bool().unwrap_or(true);
